@@ -7,14 +7,16 @@ def run(ctx):
     ctx.rule = (
         "TLC: CallResultExact (result = accepted arrivals after the request up to the first stop, from the arrival history), "
         "CallLeavesNothing, CallTimeoutExact over <= 3 concurrent calls (single / list-until-done / filter-by-key), arrivals, cancellations, "
-        "timeouts, closes; schedules: one per distinct quiescent state of the calls slice + random stories with calls; the handler table size, "
+        "timeouts, closes; calls next to subscribers on the same types (unsubscribe functions called twice); schedules: one per distinct quiescent state of the calls slice + random stories with calls; the handler table size, "
         "the waiter set size and the whole timer heap are part of every validated row; distinct = distinct schedule"
     )
 
     def build(ctx, rng):
         gen = conn_common.tlc_schedules(ctx, "MC_Connection_calls_gen.cfg", 3000 if ctx.quick else 60000, rng, connected=True)
         rnd = conn_common.random_family(rng, 1500 if ctx.quick else 20000, 0.08, calls=True, subs=False, max_events=10)
-        return {"calls_tlc": gen, "calls_random": rnd}
+        from vf import connsim
+
+        return {"calls_tlc": gen, "calls_random": rnd, "calls_neighbours": connsim.c11_neighbours_family()}
 
     mc = [("MC_Connection_calls.cfg", {})] + ([] if ctx.quick else [("MC_Connection_calls2.cfg", {})])
     conn_common.dedicated(ctx, "c11", mc, build)
